@@ -16,7 +16,10 @@
 (* Invariant WritesInsideAddressed: every byte written belongs to a field   *)
 (* the document names.  With the deviation "PointerSizedZeroFill" (the code *)
 (* before it was repaired: 8-byte stores for the tail whatever the element  *)
-(* size) TLC finds the overwritten guard / neighbour.                       *)
+(* size) TLC finds the overwritten guard / neighbour; likewise for          *)
+(* "PointerSizedNullStore" (null into a narrow TextUnmarshaler value stored *)
+(* a nil pointer) and "WideQuotedStore" (a ",string" member written back    *)
+(* through a 64-bit word).                                                  *)
 (*                                                                         *)
 (* Every explored (layout, document) pair is exported; the harness builds   *)
 (* the layout with reflect.StructOf, fills everything with canaries,        *)
@@ -31,9 +34,12 @@ CONSTANTS FieldKinds,   \* kinds of fields explored (see Size / IsArray)
 
 Guard == 8    \* guard bytes between fields in the model
 
-(* kind names: "s<k>" scalar of k bytes; "a<n>x<e>" array of n elements of e bytes; "hdr" a 16/24-byte header (string, slice) *)
+(* kind names: "s<k>" scalar of k bytes; "a<n>x<e>" array of n elements of e bytes; "hdr" a 16/24-byte header (string, slice); *)
+(* "q<k>" scalar of k bytes tagged ",string" (the value arrives as a quoted literal); "t<k>" named scalar of k bytes that       *)
+(* implements encoding.TextUnmarshaler (a JSON null has no effect on it).                                                       *)
 Size(k) ==
   CASE k = "s1" -> 1 [] k = "s2" -> 2 [] k = "s4" -> 4 [] k = "s8" -> 8 [] k = "hdr16" -> 16 [] k = "hdr24" -> 24
+    [] k = "q1" -> 1 [] k = "q2" -> 2 [] k = "q4" -> 4 [] k = "q8" -> 8 [] k = "t1" -> 1 [] k = "t2" -> 2 [] k = "t4" -> 4
     [] k = "a2x1" -> 2 [] k = "a3x1" -> 3 [] k = "a4x1" -> 4 [] k = "a2x2" -> 4 [] k = "a3x3" -> 9 [] k = "a2x4" -> 8
     [] k = "a2x8" -> 16 [] k = "a3x5" -> 15 [] k = "a2x12" -> 24 [] k = "a2x16" -> 32 [] k = "a2x24" -> 48 [] k = "a1x64" -> 64
 ElemSize(k) ==
@@ -59,7 +65,11 @@ FieldBytes(lay, i) == { OffsetOf(lay, i) + b : b \in 0..(Size(lay[i]) - 1) }
 Stores(lay, i, a) ==
   LET k == lay[i]
       off == OffsetOf(lay, i) IN
-  IF a \in {"absent", "null", "wrongkind"} THEN {}
+  IF a = "null" /\ k \in {"t1", "t2", "t4"} /\ "PointerSizedNullStore" \in Deviations
+  THEN {[off |-> off, size |-> 8]}                    \* the TextUnmarshaler decoder before it was repaired: null stored a nil POINTER
+  ELSE IF a \in {"absent", "null", "wrongkind"} THEN {}
+  ELSE IF k \in {"q1", "q2", "q4"} /\ "WideQuotedStore" \in Deviations
+  THEN {[off |-> off, size |-> 8]}                    \* a realistic slip: the quoted literal written back through a 64-bit scratch word
   ELSE IF ~IsArray(k) THEN {[off |-> off, size |-> Size(k)]}
   ELSE LET n == Count(k)
            e == ElemSize(k)
